@@ -245,3 +245,30 @@ def c16_6(ctx):
     rr = returns_of(f.node)
     if not rr or N(rr[-1].value) != NS('type(self)(**{keys.get(k, k): v for k, v in self.items()})'):
         ctx.fail(f, rr[-1] if rr else f.node, 'relabel does not rebuild the mapping with renamed keys and untouched values')
+
+
+@obligation('C16.7', 'PATH (symbolic summary)', '_dict:Dict.apply',
+            'Dict.__call__ evaluates callables with arguments taken BY NAME FROM THE MAPPING: in apply the values of the mapping must override the defaults supplied alongside (default_params.update(self), then call), and a non-callable names an item',
+            axioms=())
+def c16_7(ctx):
+    f = ctx.repo.fn('_dict:Dict.apply')
+    fun = f.params[1]
+    kwn = f.node.args.kwarg.arg if f.node.args.kwarg else None
+    ctx.need(kwn is not None, 'Dict.apply no longer collects default parameters as **kwargs')
+    seen = set()
+    for p in sym_paths(f):
+        if p.term != 'return':
+            continue
+        ctx.count(1, f.where(p.node))
+        if p.holds('callable(%s)' % fun, True):
+            seen.add('call')
+            upd = [N(e) for e in p.effects]
+            if p.text() != NS('kwargs_support(%s)(**%s)' % (fun, kwn)) or NS('%s.update(self)' % kwn) not in upd:
+                ctx.fail(f, p.node, 'a callable is evaluated as `%s` after %s: expected %s.update(self) and then kwargs_support(%s)(**%s), so that the values of the mapping override the defaults (and keys need not be strings to be merged)' % (
+                    p.text(), upd or 'no merge', kwn, fun, kwn), witness='Dict(a=1).apply(lambda a: a, a=5) == 1')
+        elif p.holds('callable(%s)' % fun, False):
+            seen.add('item')
+            if p.text() != NS('self[%s]' % fun):
+                ctx.fail(f, p.node, 'a non-callable is answered with `%s`, expected self[%s]' % (p.text(), fun))
+    if not ctx.findings and seen != {'call', 'item'}:
+        ctx.fail(f, f.node, 'Dict.apply no longer distinguishes callables from keys')
